@@ -100,6 +100,14 @@ func WorkerMain(t *testing.T, worlds map[string]World, selftest func() error) {
 		return
 	}
 	env := &Env{T: t, Tier: job.Tier}
+	curRun := int64(-1)
+	if job.Progress != "" {
+		env.Progress = func(sc Scenario) {
+			js, _ := json.Marshal(sc)
+			pf, _ := json.Marshal(ReplayFile{Property: job.Property, World: job.Property, Seed: job.Seed, Run: curRun, Scenario: js})
+			os.WriteFile(job.Progress, pf, 0o644)
+		}
+	}
 	switch job.Mode {
 	case "replay":
 		raw, err := os.ReadFile(job.Replay)
@@ -174,9 +182,7 @@ func WorkerMain(t *testing.T, worlds map[string]World, selftest func() error) {
 		}
 		seed := RunSeed(job.Seed, i)
 		sc := w.Gen(seed, job.Tier)
-		if job.Progress != "" {
-			os.WriteFile(job.Progress, []byte(fmt.Sprint(i)), 0o644)
-		}
+		curRun = i
 		res.Stats.Runs++
 		vs := SafeRun(env, sc, res.Stats)
 		if len(vs) == 0 {
